@@ -152,18 +152,21 @@ def modes_table(ctx):
             want = st['res'][i]
             if want != geom_supported(s, mode):
                 raise tlc.TlcError('harness table and Geometry!Supported disagree')
-            try:
-                region.to_mask(mode=mode, subpixels=3)
-                got = True
-            except NotImplementedError:
-                got = False
-            except Exception as ex:
-                got = type(ex).__name__
-            ctx.case(('modes', sig, mode), True)
-            if got is not want:
-                ctx.violation(f'C02|modes|{kind_sig(s)}|{mode}',
-                              f"to_mask(mode='{mode}') {'returned a mask' if got is True else 'raised ' + str(got) if got else 'raised NotImplementedError'}; "
-                              f"the table says {'supported' if want else 'NotImplementedError'}", {'shape': s, 'mode': mode})
+            # whether a combination is supported does not depend on the sub-sample count: the class default (absent), 1 and more
+            for sub in (None, 1, 3):
+                try:
+                    region.to_mask(mode=mode, **({} if sub is None else {'subpixels': sub}))
+                    got = True
+                except NotImplementedError:
+                    got = False
+                except Exception as ex:
+                    got = type(ex).__name__
+                ctx.case(('modes', sig, mode, sub), True)
+                if got is not want:
+                    ctx.violation(f'C02|modes|{kind_sig(s)}|{mode}',
+                                  f"to_mask(mode='{mode}', subpixels={sub}) {'returned a mask' if got is True else 'raised ' + str(got) if got else 'raised NotImplementedError'}; "
+                                  f"the table says {'supported' if want else 'NotImplementedError'}", {'shape': s, 'mode': mode, 'subpixels': sub})
+                    break
     ctx.traces += k
     ctx.note('modes_table_shapes', k)
     tlc.cleanup(res.workdir)
